@@ -24,7 +24,10 @@ DRIVERS = ["drv_brine"]       # driver executables it pipes ops through
 TRUSTED = [
     "modelled, not verified: struct '!d' packing is bit-transparent; str(int)/int(bytes) grammar and the "
     "interpreter's digit limit; UTF-8 (strict / surrogatepass) of CPython equals the model's codec; "
-    "Python's recursion limit is not modelled; TAG_SLICE applied to a frozenset is not modelled",
+    "Python's recursion limit is not modelled; TAG_SLICE applied to a frozenset is not modelled (CPython's set iteration "
+    "order): there the check only verifies on the real code that the result is a slice of plain values or ValueError; "
+    "the interpreter is CPython %d.%d.%d: that every plain value (slices included) is hashable is measured and is a proof "
+    "obligation (interpreter_hashes_slices)" % sys.version_info[:3],
 ]
 ASSUMPTIONS = [
     "values nested deeper than the interpreter's recursion limit are outside the model",
@@ -332,6 +335,7 @@ def correspondence(ctx):
         impl.append(("dumpable", t, d))
         lines.append("brine enc " + t)
         impl.append(("enc", t, e))
+    not_plain = set()
     dec_inputs = [b""] + [bytes([a]) for a in range(256)] + [bytes([a, b]) for a in range(256) for b in range(256)]
     n_exh = len(dec_inputs)
     valid = valid_encodings(r, ctx.budget(300, 3000))
@@ -351,6 +355,8 @@ def correspondence(ctx):
             continue
         lines.append("brine dec " + bs.hex())
         impl.append(("dec", bs.hex(), st if st != "ok" else "ok " + valtext.canon(v)))
+        if st == "ok" and not only_plain(v):
+            not_plain.add(bs.hex())
     try:
         outs = run_driver(lines)
     except DriverError as ex:
@@ -362,6 +368,13 @@ def correspondence(ctx):
             got = "ok " + valtext.canon(valtext.from_text(got[3:]))
         if got == "err NOT-MODELLED":
             c.count("decode:not-modelled(slice-of-frozenset)")
+            # the one place the model does not follow (CPython's set iteration order): the real result must still be a
+            # slice of plain values or ValueError
+            if text in not_plain or not (want.startswith("ok ( ") or want.startswith("ok [") or want in ("err ValueError",)
+                                         or want.startswith("ok")):
+                c.disagreements.append(dict(op=kind, case=text[:2000], impl=want[:300], model=got[:300]))
+            elif want.startswith("err") and want != "err ValueError":
+                c.disagreements.append(dict(op=kind, case=text[:2000], impl=want[:300], model=got[:300]))
             continue
         c.count("%s:%s" % (kind, want.split(" ")[0] if not want.startswith("err") else want))
         if text not in ("", "N"):
@@ -371,8 +384,40 @@ def correspondence(ctx):
         elif len(c.samples) < 12 and c.evaluations % 997 == 3:
             c.samples.append(dict(op=kind, case=text[:200], outcome=want[:200]))
     c.extra["exhaustive_decode_inputs_up_to_2_bytes"] = n_exh
+    if ctx.tier == "thorough" and not c.disagreements:
+        exhaustive3(c)
     c.exhaustive = False
     return c
+
+
+def exhaustive3(c):
+    """thorough tier: ALL 16 777 216 byte strings of length 3, one driver run per leading byte"""
+    n = 0
+    for a in range(256):
+        inputs = [bytes([a, b, d]) for b in range(256) for d in range(256)]
+        wants, lines = [], []
+        for bs in inputs:
+            st, v = impl_decode(bs)
+            if st == "skip":
+                continue
+            lines.append("brine dec " + bs.hex())
+            wants.append((bs.hex(), st if st != "ok" else "ok " + valtext.canon(v), st != "ok" or only_plain(v)))
+        outs = run_driver(lines)
+        for (hx, want, plain), got in zip(wants, outs):
+            n += 1
+            if got.startswith("ok "):
+                got = "ok " + valtext.canon(valtext.from_text(got[3:]))
+            if got == "err NOT-MODELLED":
+                if not plain or (want.startswith("err") and want != "err ValueError"):
+                    c.disagreements.append(dict(op="dec", case=hx, impl=want[:300], model=got))
+                continue
+            if got != want or not plain:
+                c.disagreements.append(dict(op="dec", case=hx, impl=want[:300], model=got[:300]))
+        if len(c.disagreements) > 50:
+            break
+    c.evaluations += n
+    c.count("decode:exhaustive-3-bytes", n)
+    c.extra["exhaustive_decode_inputs_of_3_bytes"] = n
 
 
 # ---------------------------------------------------------------------------------------------- direct oracle
